@@ -301,7 +301,7 @@ def inverse_root_wiring(ctx, rep, rule: str) -> None:
     fi = ci.methods["_amortized_computation"]
     n = 0
     bad: list = []
-    for mult in (None, GEN):
+    for mult, ubc, b2 in itertools.product((None, GEN), (True, False), (1.0, GEN)):
         atoms = Atoms()
 
         def inv_root(sh, args, kw):
@@ -310,10 +310,12 @@ def inverse_root_wiring(ctx, rep, rule: str) -> None:
         def noop(sh, args, kw, recv=None):
             return None
 
-        def decide(t, sh):
+        def decide(t, sh, b2=b2):
             txt = ast.unparse(t)
             if "isnan" in txt or "isinf" in txt:
                 return False
+            if " ".join(txt.split()) == "self._beta2 < 1.0":
+                return b2 is GEN
             return None
 
         sh = Shadow(repo, atoms, opaque={"matrix_functions.matrix_inverse_root": inv_root, "_check_factor_matrix_for_diagonality_nan_and_inf": noop, "_raise_exception_if_failure_tolerance_exceeded": noop, "distributed_shampoo.utils.shampoo_preconditioner_list.BaseShampooPreconditionerList._check_factor_matrix_for_diagonality_nan_and_inf": noop}, decide=decide)
@@ -323,7 +325,7 @@ def inverse_root_wiring(ctx, rep, rule: str) -> None:
         pc = Obj("pc", {"amortized_computation_config": cfg})
         nm, cl = Obj("m"), Obj("cls")
         nm.fields["__name__"] = cl.fields["__name__"] = "n"
-        selfo = Obj("self", {"_masked_kronecker_factors_list": ListRep(kf), "_masked_root_list": ListRep(Rat.sym(atoms, "root")), "_bias_correction2": Cell(Rat.sym(atoms, "bc2")), "_epsilon": Rat.sym(atoms, "eps"), "_preconditioner_config": pc, "__class__": cl, "_amortized_computation": nm})
+        selfo = Obj("self", {"_masked_kronecker_factors_list": ListRep(kf), "_masked_root_list": ListRep(Rat.sym(atoms, "root")), "_bias_correction2": Cell(Rat.sym(atoms, "bc2")), "_epsilon": Rat.sym(atoms, "eps"), "_preconditioner_config": pc, "__class__": cl, "_amortized_computation": nm, "_use_bias_correction": ubc, "_beta2": _scalar(atoms, b2, "beta2")})
         selfo.cls = ci
         try:
             sh.run(fi, {}, selfo)
@@ -333,8 +335,9 @@ def inverse_root_wiring(ctx, rep, rule: str) -> None:
         root = S("root") if mult is None else S("root") / S("mult")
         want = Rat.app(atoms, "matrix_inverse_root", (S("L") / S("bc2"), root, S("eps")))
         n += 1
-        _cmp(rep, rule, "", "", X.v, want, "stored inverse root", dict(exponent_multiplier=mult), bad)
-        _cmp(rep, rule, "", "", L.v, S("L"), "factor matrix (must not be modified by the refresh)", dict(exponent_multiplier=mult), bad)
+        case = dict(exponent_multiplier=mult, bias_correction=ubc, beta2=b2)
+        _cmp(rep, rule, "", "", X.v, want, "stored inverse root", case, bad)
+        _cmp(rep, rule, "", "", L.v, S("L"), "factor matrix (must not be modified by the refresh)", case, bad)
     _report(rep, rule, "inverse-root-refresh", fi.loc(), n, bad, "inv_factor <- matrix_inverse_root(A = factor / bias_correction2, root = root / exponent_multiplier, epsilon = epsilon)")
 
 
@@ -400,3 +403,80 @@ def soap_arithmetic(ctx, rep, rule: str) -> None:
         _cmp(rep, rule, "", "", c2.v, S2("c"), "corrected eigenvalues (precondition must not modify state)", case, bad)
         _cmp(rep, rule, "", "", g2.v, S2("g"), "input gradient (precondition must work on a copy)", case, bad)
     _report(rep, rule, "soap-recurrence", up.loc(), n, bad, "C <- C + rot(G)^2 (beta2 = 1) | beta2*C + (1-beta2)*rot(G)^2; direction = rot_back( rot(G) / (C / bias_correction2 + epsilon)^(1/root) ), rot = identity before a basis exists")
+
+
+# ------------------------------------------------------------------------------------------------ QR / orthogonal iteration
+def qr_iteration_arithmetic(ctx, rep, rule: str) -> None:
+    """One representative orthogonal iteration: Q <- qr(A @ Q).Q; error = ||Q_prev - Q|| / ||Q_prev||; columns sorted by the
+    Rayleigh quotients einsum('ij, ik, kj -> j', Q, A, Q); the loop runs while iteration < max_iterations and error > tolerance."""
+    from ..guards import Interp
+
+    repo = ctx.repo
+    fi = repo.func("matrix_functions:_compute_orthogonal_iterations")
+    atoms = Atoms()
+
+    def qr(sh, args, kw):
+        return Obj("qr", {"Q": Cell(Rat.app(sh.atoms, "qr.Q", (sh.rat(args[0]),)))})
+
+    def einsum(sh, args, kw):
+        spec = args[0] if isinstance(args[0], str) else "?"
+        return Cell(Rat.app(sh.atoms, "einsum", tuple(sh.rat(a) for a in args[1:]), key=" ".join(spec.split())))
+
+    def norm(sh, args, kw, recv=None):
+        return Cell(Rat.app(sh.atoms, "norm", (sh.rat(recv),)))
+
+    def argsort(sh, args, kw, recv=None):
+        return Cell(Rat.app(sh.atoms, "argsort", (sh.rat(recv),)))
+
+    def subscript(sh, base, sl, fr, fi_):
+        parts = sl.elts if isinstance(sl, ast.Tuple) else [sl]
+        if len(parts) == 2 and isinstance(parts[0], ast.Slice) and parts[0].lower is None and parts[0].upper is None:
+            return Cell(Rat.app(sh.atoms, "columns", (base.v, sh.rat(sh.ev(parts[1], fr, fi_)))))
+        raise Unsupported("tensor subscript")
+
+    def decide(t, sh):
+        if isinstance(t, ast.Call) and isinstance(t.func, ast.Attribute) and t.func.attr == "any":
+            return True  # a non-zero estimate exists (the zero-estimate fallback is checked below)
+        return None
+
+    sh = Shadow(repo, atoms, opaque={"torch.linalg.qr": qr, "torch.einsum": einsum, "norm": norm, "argsort": argsort, "subscript": subscript}, decide=decide)
+    sh.loop_once = True
+    Acell, Q0 = Cell(Rat.sym(atoms, "A")), Cell(Rat.sym(atoms, "Q"))
+    try:
+        out = sh.run(fi, {"A": Acell, "eigenvectors_estimate": Q0, "max_iterations": Rat.sym(atoms, "max_iter"), "tolerance": Rat.sym(atoms, "tol")})
+    except Unsupported as u:
+        raise AnalysisError(f"{rule}: _compute_orthogonal_iterations outside the sub-language: {u}") from u
+    S = lambda n: Rat.sym(atoms, n)  # noqa: E731
+    Qn = Rat.app(atoms, "qr.Q", (Rat.app(atoms, "matmul", (S("A"), S("Q"))),))
+    ray = Rat.app(atoms, "einsum", (Qn, S("A"), Qn), key="ij, ik, kj -> j")
+    want = Rat.app(atoms, "columns", (Qn, Rat.app(atoms, "argsort", (ray,))))
+    bad = []
+    _cmp(rep, rule, "", "", sh.rat(out) if isinstance(out, Cell) else None, want, "returned basis", {}, bad)
+    # the error of the iteration: recover it from the frame is not possible; re-interpret the loop body for `error`
+    wl = [n for n in A.walk_no_nested(fi.node) if isinstance(n, ast.While)]
+    ok_loop = False
+    if len(wl) == 1:
+        errs = [n for n in wl[0].body if isinstance(n, ast.Assign) and isinstance(n.targets[0], ast.Name) and n.targets[0].id == "error"]
+        if len(errs) == 1:
+            atoms2 = Atoms()
+            sh2 = Shadow(repo, atoms2, opaque={"norm": norm, "sub": lambda sh, args, kw, recv=None: Cell(sh.rat(recv) - sh.rat(args[0]))})
+            fr = {"last_Q": Cell(Rat.sym(atoms2, "Qprev")), "Q": Cell(Rat.sym(atoms2, "Qnew"))}
+            try:
+                e = sh2.ev(errs[0].value, fr, fi)
+                want_e = Rat.app(atoms2, "norm", (Rat.sym(atoms2, "Qprev") - Rat.sym(atoms2, "Qnew"),)) / Rat.app(atoms2, "norm", (Rat.sym(atoms2, "Qprev"),))
+                _cmp(rep, rule, "", "", sh2.rat(e), want_e, "relative change used by the stopping rule", {}, bad)
+            except Unsupported as u:
+                raise AnalysisError(f"{rule}: error expression outside the sub-language: {u}") from u
+        # loop condition
+        cond_bad = []
+        for it_, mx, er, tol in itertools.product([0, 1, 2], [1, 2], [0.0, 0.5, 1.0], [0.5]):
+            got = bool(Interp({"iteration": it_, "max_iterations": mx, "error": er, "tolerance": tol}).ev(wl[0].test))
+            if got != (it_ < mx and er > tol):
+                cond_bad.append((it_, mx, er, tol))
+        ok_loop = not cond_bad
+    rep.ob(rule, "qr-loop-condition", ok_loop, fi.loc(wl[0]) if wl else fi.loc(), "the orthogonal iteration continues while iteration < max_iterations and error > tolerance")
+    _report(rep, rule, "qr-iteration-recurrence", fi.loc(), 1, bad, "Q <- qr(A @ Q).Q; error = ||Q_prev - Q|| / ||Q_prev|| (relative change); result = Q[:, argsort(einsum('ij, ik, kj -> j', Q, A, Q))]")
+    # zero-estimate fallback
+    first = next((n for n in fi.node.body if isinstance(n, ast.If)), None)
+    ok = first is not None and " ".join(ast.unparse(first.test).split()) == "not eigenvectors_estimate.any()" and len(first.body) == 1 and isinstance(first.body[0], ast.Return) and "matrix_eigenvalue_decomposition(A)[1]" in ast.unparse(first.body[0])
+    rep.ob(rule, "qr-zero-estimate-falls-back-to-eigh", ok, fi.loc(first) if first is not None else fi.loc(), "a zero estimate falls back to the eigendecomposition's eigenvectors")
